@@ -98,8 +98,19 @@ def run(tier, seed, replay=None):
             q2 = path_text(p[0], p[1], base + tuple(reversed(binds)) + ('G = GB',)) if rng.random() < 0.5 else path_text(p[0], p[1], base + ('G = GB',))
             hdr = rng.choice(['Vec<U>', 'Option<U>', '(U, U)'])
             place1 = rng.random() < 0.5
+            split = rng.random() < 0.4
+            if split:
+                # the first block binds a second associated type too, to the value the second block repeats
+                q1 = path_text(p[0], p[1], base + binds + ('G = GA', 'H = X'))
             b1 = ('impl<T: %s> K for T {}' % q1) if place1 else ('impl<T> K for T where T: %s {}' % q1)
-            b2 = 'impl<U> K for %s where %s: %s {}' % (hdr, hdr, q2)
+            if split:
+                # the second block spells its key twice, each time with another binding
+                q2a = path_text(p[0], p[1], base + ('H = X',))
+                q2b = path_text(p[0], p[1], base + ('G = GB',))
+                pieces = [q2a, q2b] if rng.random() < 0.5 else [q2b, q2a]
+                b2 = 'impl<U> K for %s where %s {}' % (hdr, (', '.join('%s: %s' % (hdr, q) for q in pieces)) if rng.random() < 0.5 else '%s: %s' % (hdr, ' + '.join(pieces)))
+            else:
+                b2 = 'impl<U> K for %s where %s: %s {}' % (hdr, hdr, q2)
             blocks = [b1, b2] if rng.random() < 0.5 else [b2, b1]
             reqs.append('groups\tpub trait K {} ' + ' '.join(blocks)); meta.append(('situ', p, None))
         # the model's token printer against syn's ToTokens on random types
